@@ -18,7 +18,20 @@ class Engine:
         # pass 1: every partial operation may raise
         self.R0 = Raises(self.m, self.r)
         self.R = self.R0
-        self.I = Interp(self.m, self.r, self.R0)
+        # functions the pinned tree does not have and the syntactic
+        # normaliser could not dissolve (several returns, another module
+        # with other imports, ...) are walked through by every path
+        # interpreter instead of being treated as opaque calls
+        from . import normalise
+        known = normalise.known_functions()
+        moved = getattr(self.m.aliases, 'moved', {})
+
+        def introduced(fi, depth):
+            q = moved.get(fi.qual, fi.qual)
+            return q not in known and not fi.name.startswith('__') and \
+                not fi.is_generator and fi.parent is None
+        self._introduced = introduced
+        self.I = Interp(self.m, self.r, self.R0, inline=introduced)
         self._fsm = None
         self._interps = {}
         n = len(self.m.modules)
@@ -42,7 +55,7 @@ class Engine:
         self.D = Discharger(self)
         self.R = Raises(self.m, self.r, discharged=self.D.reasons)
         self.I0 = self.I
-        self.I = Interp(self.m, self.r, self.R)
+        self.I = Interp(self.m, self.r, self.R, inline=self._introduced)
         self._interps = {}
 
     @property
@@ -56,13 +69,14 @@ class Engine:
         """A path interpreter that inlines the callees selected by `inline`
         (a set of qualified names or a predicate).  With fork_raises=False
         only the normal flow (and explicit raises) is enumerated."""
+        intro = self._introduced
         if isinstance(inline, (set, frozenset, list, tuple)):
             names = frozenset(inline)
             k = (names, depth, fork_raises)
-            pred = lambda fi, d: fi.qual in names   # noqa: E731
+            pred = lambda fi, d: fi.qual in names or intro(fi, d)  # noqa
         else:
             k = (key or id(inline), depth, fork_raises)
-            pred = inline
+            pred = lambda fi, d: inline(fi, d) or intro(fi, d)     # noqa
         if k not in self._interps:
             self._interps[k] = Interp(self.m, self.r, self.R, inline=pred,
                                       max_depth=depth,
